@@ -9,7 +9,7 @@ from .common import Ctx, Driver, enc
 from . import gens
 
 NAMES = ["code", "fence", "hr", "heading"]
-LINES = ["# h", "####### x", "#", "# h #", "#\tx ##  ", "## a ## b", "#x", "# \\#", "***", "- - -", "__ _", "--", "* * *  x", "```", "````py", "~~~",
+LINES = ["# h", "####### x", "#######", "######", "####### ", "########", "#######\t", "#", "# h #", "#\tx ##  ", "## a ## b", "#x", "# \\#", "***", "- - -", "__ _", "--", "* * *  x", "```", "````py", "~~~",
          "``` a`b", "~~~ a`b", "``", "```` ", "    code", "\tcode", "     x", "  \tx", "", "  ", "\t", "para", " para  ", "  ## h ##", "   ```", "    ```",
          "===", "\x85x\x85", "x ", "\xa0# h", "\x0bv", "a\x1c", "## ", "##\t", "*-*", "_ _ _ _", "~~~~", "`````", "text `x`", "1. x", "> q", "- a",
          "    ", "      indented more", "﻿# bom", "# h\x00", "\x00"]
